@@ -29,7 +29,8 @@ READ_NAME = re.compile(r"^(get_|is_|search|match$|text_at$|to_|as_|show_|seriali
 # documented to create on demand ("Created if not found"): not read-only by contract
 EXCLUDED = {"get_variable_decls", "get_user_field_decls"}
 # not reads in spite of their name
-NOT_READS = {"get_formatted_text_rst"}
+NOT_READS = {"get_formatted_text_rst", "append_plain_text"}
+MUTATOR_PREFIX = ("append", "set_", "insert", "delete", "remove", "del_", "add_", "extend", "clear", "strip", "rstrip", "optimize", "transpose", "fill", "merge", "save", "replace_element")
 
 ARG_BY_NAME = {
     "pattern": "a", "regex": "a", "content": "a", "name": "x", "family": "paragraph", "position": 0, "coord": "A1", "x": 0, "y": 0,
@@ -88,7 +89,7 @@ def entry_points(obj):
     cls = type(obj)
     out = []
     for name in sorted(dir(cls)):
-        if name in EXCLUDED or name in NOT_READS:
+        if name in EXCLUDED or name in NOT_READS or name.startswith(MUTATOR_PREFIX):
             continue
         if name.startswith("_") and name not in ("__str__", "__repr__"):
             continue
@@ -140,19 +141,82 @@ def objects_of(doc):
     return objs
 
 
+def too_big(seed, limit=3000):
+    """Bounded table sizes (as the property says): skip documents whose expanded tables are huge."""
+    if seed[0] != "file" or not seed[1].endswith(".ods"):
+        return False
+    try:
+        doc = Document(str(SAMPLES / seed[1]))
+        return any(t.width * t.height > limit for t in doc.body.get_tables())
+    except Exception:
+        return False
+
+
 def doc_seeds(tier):
     small = ["example.odt", "simple_table.ods", "frame_image.odp", "base_shapes.odg", "toc.odt", "note.odt", "bookmark.odt", "variable.odt", "user_fields.odt",
              "tracked_changes.odt", "list.odt", "span_style.odt", "md_style.odt", "styled_table.ods", "meta.odt", "base_md_text.odt"]
-    seeds = [("template", t) for t in ("text", "spreadsheet", "presentation", "drawing")] + [("file", f) for f in small]
+    seeds = [("generated", "text-tables"), ("generated", "sheet-tables"), ("generated", "adjacency")]
+    seeds += [("template", t) for t in ("text", "spreadsheet", "presentation", "drawing")] + [("file", f) for f in small]
+    seeds = [sd for sd in seeds if not too_big(sd)]
     if tier != "quick":
         extra = sorted(p.name for p in SAMPLES.iterdir() if p.suffix in (".odt", ".ods", ".odp", ".odg") and p.name not in small and p.name != "big.ods")
-        seeds += [("file", f) for f in extra]
+        seeds += [sd for sd in (("file", f) for f in extra) if not too_big(sd)]
     return seeds
+
+
+def generated(name):
+    """Generated documents: tables with trailing empties / repeats inside a text document,
+    headings + TOC + notes + lists + frames; or the adjacency document of C11."""
+    if name == "adjacency":
+        from .c11 import gen_document
+
+        doc = gen_document("quick")[0]
+        # keep the document small: every 12th block element
+        body = doc.body
+        for i, ch in enumerate(body.children):
+            if i % 12:
+                body.delete(ch)
+        return doc
+    from odfdo import Frame, Header, List, Paragraph, Table
+    from odfdo.toc import TOC
+
+    from ..machines.tables import TableMachine, table_xml
+
+    doc = Document("text" if name == "text-tables" else "spreadsheet")
+    body = doc.body
+    body.clear()
+    tm = TableMachine()
+    if name == "text-tables":
+        body.append(TOC())
+        body.append(Header(1, "One"))
+    for i in (0, 5, 47, tm.n_family + 2, tm.n_family + 3, tm.n_family + 4):
+        spec = dict(tm.seed_list[i])
+        t = Element.from_tag(table_xml(spec))
+        t.name = f"T{i}"
+        body.append(t)
+    t = Table("Trailing", width=4, height=4)
+    t.set_value((0, 0), "x")
+    t.set_value((1, 1), 2)
+    body.append(t)
+    if name == "text-tables":
+        body.append(Header(2, "Two"))
+        p = Paragraph("some text with a note")
+        p.insert_note(after="text", note_id="n1", citation="1", body="note body")
+        p.insert_annotation(after="note", body="annot", creator="me")
+        p.set_bookmark("bm", after="some")
+        body.append(p)
+        body.append(List(["a", "b"]))
+        body.append(Frame.text_frame("in frame", size=("2cm", "1cm")))
+        doc.body.get_toc().fill()
+    return doc
 
 
 def open_seed(seed):
     kind, name = seed
-    doc = Document(name) if kind == "template" else Document(str(SAMPLES / name))
+    if kind == "generated":
+        doc = generated(name)
+    else:
+        doc = Document(name) if kind == "template" else Document(str(SAMPLES / name))
     # parse every part so that any change is visible
     for p in ("content", "styles", "meta", "settings", "manifest"):
         doc.get_part(p).root
